@@ -133,6 +133,8 @@ def _splice(rec, blk, idx, call_nid, cal, serial):
     for n in cal["nodes"]:
         m = copy.deepcopy(n)
         m["c"] = [(c + N0 if c >= 0 else c) for c in m.get("c", [])]
+        if isinstance(m.get("asize"), int) and m["asize"] >= 0:
+            m["asize"] += N0
         if m["k"] == "decl":
             for v in m.get("vars", []):
                 if "init" in v and v["init"] >= 0:
